@@ -2,6 +2,8 @@
 
 package syntax
 
+import "strings"
+
 // C08 — the parser is total: any input yields a tree or a located error.
 
 func prefixOf(val, b []byte) bool {
@@ -155,6 +157,9 @@ func H_C08_parseValExp(n int) {
 	} else {
 		if le, ok := err.(*mmLexError); ok {
 			verifAssert(le.info.loc.Line >= 1, "a syntax error carries a line number")
+		} else {
+			_, located := err.(*wrapError)
+			verifAssert(located, "C08: every error of the expression parser carries a source position (also 'this is not an expression')")
 		}
 	}
 }
@@ -369,5 +374,26 @@ func H_C08_mismatchText(kind, n, where int) {
 	verifAssert(err != nil, "C07/C08: a string bound to an int parameter is rejected with an error")
 	if err != nil {
 		verifAssert(len(err.Error()) > 0, "C08: the error has a text")
+	}
+}
+
+var c08WrongKind = []string{"1", "null", "\"a\"", "[1]", "{}", "true", "-2.5"}
+
+// H_C08_wrongKind(i): a bare value expression presented as MRO source, and a
+// small MRO file presented as a value expression.
+//
+//	C08: both are rejected with an error which carries a source position.
+func H_C08_wrongKind(i int) {
+	var parser Parser
+	_, err := parser.UncheckedParse([]byte(c08WrongKind[i]), "/m/v.mro")
+	verifCover("value presented as MRO source")
+	verifAssert(err != nil, "C08: a bare value is not an MRO file")
+	if err != nil {
+		verifAssert(strings.Contains(err.Error(), "/m/v.mro:1"), "C08: the error for a value presented as MRO source carries a source position")
+	}
+	_, err = parser.ParseValExp([]byte("filetype a;\n"))
+	verifAssert(err != nil, "C08: an MRO file is not a value expression")
+	if err != nil {
+		verifAssert(strings.Contains(err.Error(), ":1") || strings.Contains(err.Error(), "line 1"), "C08: the error for MRO text presented as a value carries a source position")
 	}
 }
